@@ -259,6 +259,14 @@ func c04TempFile() string {
 	c04RegMu.Lock()
 	defer c04RegMu.Unlock()
 	if c04Dir == "" {
+		// a harness process killed by a race report cannot clean up: sweep what such processes left behind
+		if old, err := filepath.Glob(filepath.Join(os.TempDir(), "zvh-c04-*")); err == nil {
+			for _, o := range old {
+				if st, err := os.Stat(o); err == nil && st.IsDir() && time.Since(st.ModTime()) > 15*time.Minute {
+					_ = os.RemoveAll(o)
+				}
+			}
+		}
 		d, err := os.MkdirTemp("", "zvh-c04-")
 		must(err)
 		c04Dir = d
